@@ -64,6 +64,10 @@ CHECKS = {
         text='The loader / cache-file protocol is a TLA+ state machine with a crash action at every step and corruption of any cache file; TLC checks result correctness, completeness after return and key separation over all schedules (negative control: the original under-keyed cache name is refuted). Every model behaviour is replayed on from_vasprun (and a sample on from_lammps) with synthetic source files, and every byte prefix of the real cache image is enumerated as a fault.',
         note='Trusted: TLC; an interrupted pickle.dump leaves a byte prefix; synthetic vasprun.xml / LAMMPS files; from_gromacs (binary .tpr not synthesiseable offline) is covered by the model only.',
         ref='DESIGN.md 8/C16', technique='TLA+ spec DiskCache.tla; TLC model checking with crash/corrupt actions + negative control; replay of TLC-exported behaviours; byte-prefix fault enumeration'),
+    'C17': dict(
+        text='Symmetry-image collection is specified with integer operations (W, w) in the fractional basis and the integer metric tensor; TLC checks within-radius and distance preservation for every site/point position of small line and plane groups (and refutes the original +-1 re-imaging), and compares the multiset of points returned by ShapeAnalyzer for 7 space groups in compatible cells, 3 orientations and integer supercells with the spec.',
+        note='Trusted: TLC; pymatgen space-group operations (asserted to be isometries of the metric tensor); radius below half the smallest perpendicular width.',
+        ref='DESIGN.md 8/C17', technique='TLA+ spec Shape.tla; TLC model checking (MC_Shape + negative control) + trace validation (TraceShape.tla) with multiset comparison'),
     'C19': dict(
         text='TLC checks on every bounded history and every cut that part jumps are jumps of the whole; recorded split() results of the real code are validated by the trace spec for partition, exactly-once, re-basing and chronology with an offset witness.',
         note='Where part boundaries fall is deliberately not constrained. Trusted: TLC, harness witness search (exhaustive, verified by TLC).',
